@@ -211,8 +211,34 @@ def coq_project_args(subsys):
     return " ".join(args)
 
 
+class dir_lock:
+    """Exclusive lock per Coq directory: two checks of one subsystem may run at the same time
+    (each one builds with make and re-compiles its property file in place)."""
+
+    def __init__(self, subsys):
+        import fcntl
+        self.fcntl = fcntl
+        (VERIF / ".cache").mkdir(exist_ok=True)
+        self.path = VERIF / ".cache" / ("coq-%s.lock" % subsys)
+
+    def __enter__(self):
+        self.f = open(self.path, "w")
+        self.fcntl.flock(self.f, self.fcntl.LOCK_EX)
+        return self
+
+    def __exit__(self, *a):
+        self.fcntl.flock(self.f, self.fcntl.LOCK_UN)
+        self.f.close()
+        return False
+
+
 def coq_make(subsys, targets=None, timeout=1500):
     """Full .vo build of coq/<subsys> (or of the given .vo targets)."""
+    with dir_lock(subsys):
+        return _coq_make(subsys, targets, timeout)
+
+
+def _coq_make(subsys, targets=None, timeout=1500):
     d = COQ / subsys
     mk = d / "Makefile"
     if not mk.exists() or mk.stat().st_mtime < (d / "_CoqProject").stat().st_mtime:
@@ -252,7 +278,8 @@ def coq_props(subsys, props_file, theorems, timeout=600):
     theorem, that Print Assumptions reports nothing outside AXIOM_ALLOW.
     Returns (results: {theorem: 'closed' | [axioms] | 'missing'}, raw output, ok)."""
     d = COQ / subsys
-    rc, out = sh("coqc %s %s" % (coq_project_args(subsys), props_file), cwd=d, timeout=timeout)
+    with dir_lock(subsys):
+        rc, out = sh("coqc %s %s" % (coq_project_args(subsys), props_file), cwd=d, timeout=timeout)
     res = {}
     if rc != 0:
         return {t: "missing" for t in theorems}, out, False
